@@ -246,6 +246,8 @@ pub struct Alphabet {
     pub big_payload: bool,
     /// one limit-sized payload per history (offered while the model holds none)
     pub huge_payload: bool,
+    /// family the client ids are drawn from (see `sut::client_uuid`)
+    pub id_family: u8,
 }
 
 impl Alphabet {
